@@ -34,9 +34,6 @@ impl FsWorld {
     pub open spec fn same_state(&self, o: &FsWorld) -> bool { self.exists == o.exists && self.content == o.content && self.no_faults == o.no_faults && self.dirs == o.dirs }
 }
 /// R-generic: every path-like argument (`AsRef<Path>` / `NixPath`) is viewed as its characters
-pub trait PathLike { spec fn pview(&self) -> Seq<char>; }
-impl PathLike for PathBuf { open spec fn pview(&self) -> Seq<char> { self@ } }
-impl PathLike for RedoPathBuf { open spec fn pview(&self) -> Seq<char> { self@ } }
 #[verifier::external_body]
 pub struct Metadata { _p: () }
 #[verifier::external_body]
